@@ -126,6 +126,18 @@ class Check:
             ctx = mp.get_context('fork')
             with ctx.Pool(min(self.jobs, len(tasks))) as pool:
                 outs = list(pool.imap_unordered(_run_task, tasks, chunksize=1))
+        # a task that left something undecided is run once more in a fresh interpreter: solver verdicts on nonlinear obligations depend on
+        # the state of a long-lived worker (see pyvc/isolated.py); the second result replaces the first only if it decides more
+        by_name = {t.get('name', t['fn']): t for t in tasks}
+        for k, o in enumerate(outs):
+            unk = [r for r in o.get('results', []) if r.get('status') == 'unknown']
+            t = by_name.get(o.get('task'))
+            if unk and t is not None and not t.get('isolate') and t.get('module') != 'pyvc.native':
+                o2 = _run_task(dict(t, isolate=True))
+                unk2 = [r for r in o2.get('results', []) if r.get('status') == 'unknown']
+                if not o2.get('error') and len(unk2) < len(unk):
+                    o2['retried_in_a_fresh_interpreter'] = True
+                    outs[k] = o2
         for o in outs:
             # a bounded stand-in (label B) is never counted as proved; a failure it finds is a real failing input
             si = o.get('standin')
